@@ -825,7 +825,7 @@ def extract_epochs(fs, queue, epoch_size, target, buffer_size=0,
             # Figure out how many samples to capture for that epoch
             info['prestim_time'] = prestim_time
             info['poststim_time'] = poststim_time
-            info['epoch_size'] = epoch_size if epoch_size else info['duration']
+            info['epoch_size'] = epoch_size if epoch_size is not None else info['duration']
             total_epoch_size = info['epoch_size'] + poststim_time + prestim_time
             epoch_samples = round(total_epoch_size * fs)
             t0 = round((info['t0'] - prestim_time) * fs)
